@@ -128,7 +128,8 @@ def planar_extraction_is_right_inverse(env, cfg, ck):
 @contract('C05', targets=['spatialmath.pose3d.SO3.rpy', 'spatialmath.pose3d.SO3.eul', 'spatialmath.pose3d.SO3.angvec', 'spatialmath.pose3d.SO3.RPY',
                           'spatialmath.pose3d.SO3.Eul', 'spatialmath.pose3d.SO3.AngVec', 'spatialmath.quaternion.UnitQuaternion.rpy',
                           'spatialmath.quaternion.UnitQuaternion.eul', 'spatialmath.quaternion.UnitQuaternion.angvec'],
-          configs=[{'cls': c, 'mode': 'concrete'} for c in ('SO3', 'SE3', 'UnitQuaternion')] + [{'cls': c, 'mode': 'symbolic', 'tier': 'thorough'} for c in ('SO3', 'SE3', 'UnitQuaternion')])
+          configs=[{'cls': c, 'mode': 'concrete'} for c in ('SO3', 'SE3', 'UnitQuaternion')] + [{'cls': 'UnitQuaternion', 'mode': 'concrete', 'scalar': 'negative'}]
+          + [{'cls': c, 'mode': 'symbolic', 'tier': 'thorough'} for c in ('SO3', 'SE3', 'UnitQuaternion')])
 def class_accessors_agree_with_base(env, cfg, ck):
     """the class accessors return what the base extraction returns for the object's rotation (so their right-inverse
     property is the base functions' one), and the class constructors rebuild through the base constructors"""
@@ -137,6 +138,8 @@ def class_accessors_agree_with_base(env, cfg, ck):
     cls = cfg['cls']
     if cls == 'UnitQuaternion':
         q = env.unitvec('q', 4) if cfg['mode'] == 'symbolic' else [0.5, -0.5, 0.1, (1 - 0.25 - 0.25 - 0.01) ** 0.5]
+        if cfg.get('scalar') == 'negative':
+            q = [-x for x in q]          # the other quaternion of the same rotation (double cover): same angles expected
         X = sm.UnitQuaternion(np.array(q))
         R = A.quat_to_R(np, q)
     else:
@@ -148,6 +151,7 @@ def class_accessors_agree_with_base(env, cfg, ck):
     th1, v1 = ck.call(X.angvec)
     th2, v2 = ck.call(b.tr2angvec, R)
     ck.eq('angvec:theta', th1, th2, tol=1e-9)
+    ck.true('angvec:theta-in-[0,pi]', (th1 >= 0) and (th1 <= env.pi))
     ck.eq('angvec:axis', v1, v2, tol=1e-9)
     C = getattr(sm, cls)
     if cls != 'UnitQuaternion':
